@@ -51,6 +51,32 @@ func TestMemdbIsASortedMapWithHonestCounters(t *testing.T) {
 		if i != len(ks) {
 			t.Fatalf("%s: iterator yields %d entries, want %d", stage, i, len(ks))
 		}
+		// backward: Last / Prev (findLast, findLT) enumerate the same entries in reverse
+		it = p.NewIterator(nil)
+		i = len(ks)
+		for ok := it.Last(); ok; ok = it.Prev() {
+			i--
+			if i < 0 || string(it.Key()) != ks[i] || string(it.Value()) != model[ks[i]] {
+				t.Fatalf("%s: backward iterator entry %d is %q=%q", stage, i, it.Key(), it.Value())
+			}
+		}
+		if i != 0 {
+			t.Fatalf("%s: backward iterator stops %d entries short", stage, i)
+		}
+		// Seek then Prev: the entry before the first key not smaller than the probe
+		for _, probe := range []string{"", "a", "k05", "k05x", "k5", "zzz"} {
+			j := sort.SearchStrings(ks, probe)
+			if j == len(ks) {
+				continue
+			}
+			if !it.Seek([]byte(probe)) || string(it.Key()) != ks[j] {
+				t.Fatalf("%s: Seek(%q) lands on %q, want %q", stage, probe, it.Key(), ks[j])
+			}
+			if it.Prev() != (j > 0) || (j > 0 && string(it.Key()) != ks[j-1]) {
+				t.Fatalf("%s: Prev after Seek(%q) gives %q, want entry %d", stage, probe, it.Key(), j-1)
+			}
+		}
+		it.Release()
 		// Find: first key not smaller
 		for _, probe := range []string{"", "a", "k05", "k05x", "k5", "zzz"} {
 			j := sort.SearchStrings(ks, probe)
